@@ -242,6 +242,22 @@ def gen_cases(rng, tier):
         n = rng.choice([6, 6, 7, 8]) if tier == "thorough" else rng.choice([6, 6, 7])
         seq = rdna(rng, n)
         cases.append(("space", seq, tuple(gen_hard(rng, seq)), True))
+    # codon-usage thresholds sitting exactly on a table frequency, brute-forced: a codon ON the threshold is
+    # not rare, so it must be offered by the space
+    from .specs import user_table, table_to_desc
+    for _ in range(24 * N):
+        n = rng.choice([6, 6, 7])
+        seq = rdna(rng, n)
+        tbl = user_table(rng)
+        freqs = sorted({f for aa, cf in tbl.items() if len(aa) == 1 for f in cf.values() if 0 < f < 0.6})
+        if not freqs:
+            continue
+        a = rng.randint(0, n - 6)
+        loc = rng.choice([(a, a + 6), (a, a + 3), (a + 3, a + 6)]) + (rng.choice([1, -1]),)
+        cs = [("AvoidRareCodons", kw(location=loc, min_frequency=rng.choice(freqs), codon_usage_table=table_to_desc(tbl)))]
+        if rng.random() < 0.4:
+            cs.append(("AvoidChanges", kw(location=rloc(rng, n, strands=(0,)))))
+        cases.append(("space", seq, tuple(cs), True))
     for _ in range(400 * N):
         n = rng.choice([12, 15, 18, 24, 30])
         seq = rdna(rng, n)
